@@ -370,11 +370,28 @@ def gen_case(ctx, rng, nreq, stream="gen"):
     tops = [p for p in paths if len(p) == 1 and p[0].startswith(("M", "R"))]
     reqs = []
     quick = ctx.tier == "quick"
+    import re
+    byname = {}
+    for q in paths:
+        byname.setdefault(q[-1], []).append(q)
+
+    def used_by(q):
+        """classes named in the clauses of class q (component types, extends, class-path references)"""
+        cd = a04.find_desc(lib, q)
+        out = []
+        for txt in cd["extends"] + [k["text"] for k in cd["comps"]] + cd["eqs"]:
+            for w in re.findall(r"[A-Za-z_][A-Za-z_0-9]*", txt):
+                out += byname.get(w, [])
+        return out
     for _ in range(nreq):
         r = rng.random()
         p = rng.choice(tops) if tops and rng.random() < 0.6 else rng.choice(paths)
         if reqs and rng.random() < 0.2:
             p = rng.choice(reqs)[1]      # repeat an earlier class
+        elif reqs and rng.random() < 0.35:
+            ub = used_by(rng.choice(reqs)[1])   # a class used by one flattened earlier
+            if ub:
+                p = rng.choice(ub)
         op = "flatten" if r < (0.8 if quick else 0.7) else "casadi" if r < 0.9 else "sympy" if r < 0.96 else "xml"
         reqs.append([op, p])
     fl = [i for i, q in enumerate(reqs) if q[0] == "flatten"]
